@@ -40,7 +40,7 @@ def generate(tier, seed):
         elif style == 'shuffled':
             rng.shuffle(names)
         cases.append(dict(kind=kind, wav=wav, order=order, aps=aps, val=val, names=names, unit=rng.choice(UNITS), with_unc=rng.random() < 0.7,
-                          stored=rng.choice(['incr', 'decr']), unit_wav=rng.choice(['micron', 'micron', 'cm', 'nm', 'Angstrom']), unit_freq=rng.choice(['Hz', 'Hz', 'GHz', 'THz']), memmap=rng.random() < 0.5, conv_wav=rng.choice([None, rng.dyadic(0.3, 50, 8)])))
+                          dist_kpc=rng.choice([2.5, 0.125, 7.75, 40.0]), stored=rng.choice(['incr', 'decr']), unit_wav=rng.choice(['micron', 'micron', 'cm', 'nm', 'Angstrom']), unit_freq=rng.choice(['Hz', 'Hz', 'GHz', 'THz']), memmap=rng.random() < 0.5, conv_wav=rng.choice([None, rng.dyadic(0.3, 50, 8)])))
     return cases
 
 
@@ -59,12 +59,22 @@ def impl(case):
             from sedfitter.sed import SED
             s = SED()
             s.name = case['names'][0]
-            s.distance = 2.5 * u.kpc
+            s.distance = case.get('dist_kpc', 2.5) * u.kpc
             s.wav = np.array(wav) * u.micron
             s.nu = s.wav.to(u.Hz, equivalencies=u.spectral())
             s.apertures = None if case['aps'] is None else np.array(case['aps']) * u.au
             s.flux = np.array([_ord(r, case['order']) for r in case['val'][0]]) * unit
             s.error = s.flux * 0.125
+            # another SED with another distance / length written first in the same process (write() must not keep state)
+            dec = SED()
+            dec.name = 'decoy'
+            dec.distance = 1.0 * u.kpc
+            dec.wav = np.array([1.0, 2.0, 3.0][:max(2, min(3, len(wav) - 1))]) * u.micron
+            dec.nu = dec.wav.to(u.Hz, equivalencies=u.spectral())
+            dec.apertures = None
+            dec.flux = np.ones((1, len(dec.wav))) * unit
+            dec.error = dec.flux * 0.5
+            dec.write(os.path.join(d, 'decoy_sed.fits'))
             p = os.path.join(d, 'a_sed.fits')
             s.write(p)
             if case.get('stored') == 'decr':      # SED.write always stores increasing frequency; files stored the other way round exist too
@@ -92,12 +102,20 @@ def impl(case):
             from sedfitter.sed import SEDCube
             c = SEDCube()
             c.names = np.array(case['names'])
-            c.distance = 2.5 * u.kpc
+            c.distance = case.get('dist_kpc', 2.5) * u.kpc
             c.wav = np.array(wav) * u.micron
             c.apertures = None if case['aps'] is None else np.array(case['aps']) * u.au
             c.val = np.array([[_ord(r, case['order']) for r in m] for m in case['val']]) * unit
             if case['with_unc']:
                 c.unc = c.val * 0.125
+            # another cube with another distance / shape written first in the same process
+            dec = SEDCube()
+            dec.names = np.array(['decoy_a', 'decoy_b'])
+            dec.distance = 1.0 * u.kpc
+            dec.wav = np.array([1.0, 2.0, 3.0]) * u.micron
+            dec.apertures = None
+            dec.val = np.ones((2, 1, 3)) * unit
+            dec.write(os.path.join(d, 'decoy.fits'))
             p = os.path.join(d, 'flux.fits')
             c.write(p)
             for o in ('nu', 'wav'):
@@ -107,7 +125,7 @@ def impl(case):
                     sd = r.get_sed(nme)
                     seds.append(dict(name=sd.name, wav=[float(x) for x in sd.wav.to(u.micron).value], flux=[[float(x) for x in row] for row in np.asarray(sd.flux.to(unit).value)],
                                      error=None if sd.error is None else [[float(x) for x in row] for row in np.asarray(sd.error.to(unit).value)]))
-                out[o] = dict(names=[str(x) for x in r.names], wav=[float(x) for x in r.wav.to(u.micron).value], nu=[float(x) for x in r.nu.to(u.Hz).value],
+                out[o] = dict(distance_kpc=float(r.distance.to(u.kpc).value), names=[str(x) for x in r.names], wav=[float(x) for x in r.wav.to(u.micron).value], nu=[float(x) for x in r.nu.to(u.Hz).value],
                               val=[[[float(x) for x in row] for row in m] for m in np.asarray(r.val.to(unit).value)],
                               unc=None if r.unc is None else [[[float(x) for x in row] for row in m] for m in np.asarray(r.unc.to(unit).value)],
                               apertures=None if r.apertures is None else [float(x) for x in r.apertures.to(u.au).value], seds=seds)
@@ -190,7 +208,7 @@ def judge(case, im, mo):
             ok = cells_ok(r['flux'], case['val'][0], 'flux')
             if ok:
                 cells_ok([[x / 0.125 for x in row] for row in r['error']], case['val'][0], 'error')
-            if r['name'] != case['names'][0] or abs(r['distance_kpc'] - 2.5) > 1e-12:
+            if r['name'] != case['names'][0] or abs(r['distance_kpc'] - case.get('dist_kpc', 2.5)) > 1e-12 * case.get('dist_kpc', 2.5):
                 fail.append('meta: name / distance read back as %r / %r' % (r['name'], r['distance_kpc']))
             if case['aps'] is not None and r['apertures'] != case['aps']:
                 fail.append('meta: apertures %r read back as %r' % (case['aps'], r['apertures']))
@@ -198,6 +216,8 @@ def judge(case, im, mo):
         else:
             if r['names'] != case['names']:
                 fail.append('names: cube names read back as %r' % (r['names'],))
+            if 'distance_kpc' in r and abs(r['distance_kpc'] - case.get('dist_kpc', 2.5)) > 1e-12 * case.get('dist_kpc', 2.5):
+                fail.append('meta: the cube was stored with distance %r kpc and reads back with %r kpc (another cube was written before it in the same process)' % (case.get('dist_kpc', 2.5), r['distance_kpc']))
             for mi, mrows in enumerate(case['val']):
                 if not cells_ok(r['val'][mi], mrows, 'model %d value' % mi):
                     break
